@@ -176,6 +176,20 @@ def main(argv=None):
     if jobs and not args.no_deductive:
         with ctxm.Pool(min(args.jobs, len(jobs))) as pool:
             ded = pool.map(_run_target, jobs, chunksize=1)
+    # structural (frame / read-set) obligations decided on the AST of the working tree
+    if hasattr(spec, "structural") and not args.no_deductive:
+        t1 = time.time()
+        try:
+            obls = spec.structural()
+            ded.append({"target": "structural:%s" % prop, "self_cls": None, "kind": "structural", "status": "ok", "reason": "",
+                        "obligations": [dict(o, expect="unsat", backend="ast frame analysis", ms=0.0, queries=1,
+                                             func="structural", witness=None, smt2=None) for o in obls],
+                        "trusted": [], "inlined": [], "hash": None, "lines": None, "dropped": [], "paths": 0, "tag": None,
+                        "case": None, "wall_s": round(time.time() - t1, 3)})
+        except Exception as e:  # noqa
+            ded.append({"target": "structural:%s" % prop, "self_cls": None, "kind": "structural", "status": "error",
+                        "reason": "%r\n%s" % (e, traceback.format_exc()[-2000:]), "obligations": [], "trusted": [],
+                        "inlined": [], "hash": None, "lines": None, "dropped": [], "paths": 0, "tag": None, "case": None})
     bres = None
     if bproc is not None:
         limit = getattr(spec, "BOUNDED_HARD_LIMIT_S", {"quick": 240, "thorough": 3600})[args.tier]
